@@ -281,7 +281,21 @@ func (sc *Scope) lockState(e Expr) V {
 	// held(x.mu): lock state of the sync object at field mu of x
 	f, ok := e.(EField)
 	if !ok {
-		specFail("held() expects x.field")
+		// held(mu) for a pointer to a sync object held in a variable (e.g. a captured *sync.Mutex)
+		b := sc.eval(e)
+		if _, isPtr := b.GT.Underlying().(*types.Pointer); !isPtr {
+			specFail("held() expects x.field or a pointer to a mutex")
+		}
+		key := "held@Cell_sync"
+		arr := zeroIntArr()
+		if sc.heap == nil {
+			if t, ok := sc.st.heap[key]; ok {
+				arr = t
+			}
+		} else if t, ok := sc.heap[key]; ok {
+			arr = t
+		}
+		return V{sel(arr, b.T), SInt, nil}
 	}
 	b := sc.eval(f.X)
 	pt, ok := b.GT.Underlying().(*types.Pointer)
